@@ -91,6 +91,9 @@ func RandomHistories(w *WorldJSON, seed int64, n, depth int, routers []string, f
 			if (focus == "refresh" || focus == "clientauth") && i%25 == 4 {
 				g.refreshWithoutGrant(emit)
 			}
+			if focus == "refresh" && i%50 == 7 {
+				g.scopeMatrix(emit)
+			}
 			if (focus == "clientauth" || focus == "exchange") && i%25 == 1 {
 				// scripted table inside a history: every client (with and without the token-exchange grant, confidential and public,
 				// unknown) asks for an exchange of a live access token with the credentials it is registered for
@@ -217,7 +220,12 @@ func (g *gen) cred(c string) M {
 }
 
 func (g *gen) scopes() []string {
-	switch g.rng.Intn(5) {
+	switch g.rng.Intn(7) {
+	case 5:
+		// a repeated value: legal, stored verbatim by the storage; what is granted is the set of values
+		return []string{"openid", "openid", "offline_access"}
+	case 6:
+		return []string{"openid", "offline_access", "offline_access", "openid"}
 	case 0:
 		return []string{"openid"}
 	case 1:
